@@ -427,8 +427,26 @@ type c18Outcome struct {
 	transcript []string
 }
 
-// c18Run executes one case inside a fresh bubble.
+// c18Run executes one case. A case for the unchanged Server.ServeListener path is first
+// executed under the harness accept loop: if the server side panics there (attributed to its
+// site), that verdict is returned and the process-killing execution is not performed.
 func c18Run(t *testing.T, c c18Case) c18Outcome {
+	if c.Real {
+		pre := c
+		pre.Real = false
+		o := c18RunOne(t, pre)
+		for _, f := range o.fails {
+			if strings.HasPrefix(f.Key, "panic:") {
+				o.class = "pre-run " + o.class
+				return o
+			}
+		}
+	}
+	return c18RunOne(t, c)
+}
+
+// c18RunOne executes one case inside a fresh bubble.
+func c18RunOne(t *testing.T, c c18Case) c18Outcome {
 	var out c18Outcome
 	m := c.Msg
 	n := m.requests()
